@@ -167,10 +167,36 @@ Definition cont_ix (k : cont) : option nat :=
   | KTop i | KAfterStart i | KInlineCb i | KStopper i => Some i
   end.
 
+(* activities / continuations that occur on the locker's own thread only *)
+Definition own_a (a : act) : option nat :=
+  match a with
+  | AReg i | ARegRel i | AEarly i | ATryLock i | APush i | APushPub i
+  | ASyncLoad i | AStartedOr i | ASyncSpin i | AWaitGot i => Some i
+  | _ => None
+  end.
+Definition own_k (k : cont) : option nat :=
+  match k with
+  | KTop i | KAfterStart i | KInlineCb i => Some i
+  | _ => None
+  end.
+(* thread i has certainly not yet reached its fetch_or(started) *)
+Definition pre_start (x : act * cont) : option nat :=
+  match x with
+  | (AReg i, _) | (ARegRel i, _) | (AEarly i, _) => Some i
+  | (ACbOr i, KInlineCb _) => Some i
+  | _ => None
+  end.
+
 Record Inv (s : st) : Prop := {
   v_wf_a : forall t a kc i, nth_error (thr s) t = Some (a, kc) -> act_ix a = Some i -> i < nl s;
   v_wf_k : forall t a kc i, nth_error (thr s) t = Some (a, kc) -> cont_ix kc = Some i -> i < nl s;
   v_wf_q : forall i, In i (queue s) -> i < nl s;
+  (* the start sequence of locker i runs on thread i *)
+  v_own_a : forall t a kc i, nth_error (thr s) t = Some (a, kc) -> own_a a = Some i -> t = i;
+  v_own_k : forall t a kc i, nth_error (thr s) t = Some (a, kc) -> own_k kc = Some i -> t = i;
+  (* an inline-executed stop callback (stop requested before registration) never calls stop() *)
+  v_ki : forall t a i, nth_error (thr s) t = Some (a, KInlineCb i) -> a = ACbOr i;
+  v_bs : forall t x i, nth_error (thr s) t = Some x -> pre_start x = Some i -> o_started (ops s i) = false;
   (* one handle per operation; while it exists the operation is not completed *)
   v_hs1 : forall k, handles s k <= 1;
   v_hs2 : forall k, handles s k = 1 -> o_completed (ops s k) = false;
@@ -190,3 +216,134 @@ Record Inv (s : st) : Prop := {
   v_tok : tokens s <= b2n (locked s);
   v_tokf : fixed s = true -> tokens s = b2n (locked s)
 }.
+
+(* ------------------------------------------------------------------ tactics *)
+Ltac break_match H :=
+  repeat (cbv beta iota zeta in H; cbn [fst snd] in H;
+          match type of H with
+          | context [if ?b then _ else _] => destruct b eqn:?
+          | context [match ?x with _ => _ end] => destruct x eqn:?
+          end);
+  cbv beta iota zeta in H; cbn [fst snd] in H.
+
+(* case analysis of one step: one goal per activity and branch, [s'] replaced by its value *)
+Ltac step_split H Hth :=
+  unfold step in H;
+  match type of H with context [nth_error (thr ?s) ?t] =>
+    let a := fresh "a" in let kc := fresh "kc" in
+    destruct (nth_error (thr s) t) as [[a kc]|] eqn:Hth; [|discriminate];
+    destruct a end;
+  unfold ret, go_cleanup, go_hop, deliver, do_stop in H;
+  break_match H; try discriminate;
+  inversion H; subst; clear H.
+
+Ltac use_sum Hth :=
+  repeat match goal with
+  | |- context [sumf ?f (set_nth ?t ?x (thr ?s))] =>
+      let C := fresh "C" in
+      pose proof (sumf_set_nth f (thr s) t x _ Hth) as C; simpl in C;
+      let v := fresh "v" in
+      remember (sumf f (set_nth t x (thr s))) as v eqn:Ev; clear Ev
+  | H : context [sumf ?f (set_nth ?t ?x (thr ?s))] |- _ =>
+      let C := fresh "C" in
+      pose proof (sumf_set_nth f (thr s) t x _ Hth) as C; simpl in C;
+      let v := fresh "v" in
+      remember (sumf f (set_nth t x (thr s))) as v eqn:Ev; clear Ev
+  end.
+
+Ltac eqb_cases :=
+  unfold eqn in *;
+  repeat match goal with
+  | |- context [Nat.eqb ?a ?b] => destruct (Nat.eqb_spec a b)
+  | H : context [Nat.eqb ?a ?b] |- _ => destruct (Nat.eqb_spec a b)
+  end.
+
+(* the current thread's continuation is not KInlineCb unless it runs the stop callback *)
+Ltac kill_ki I Hth :=
+  match type of Hth with
+  | nth_error _ _ = Some (_, KInlineCb _) =>
+      let X := fresh in pose proof (v_ki _ I _ _ _ Hth) as X; discriminate X
+  end.
+
+Lemma nth_thr_cases {A} (l : list A) t t0 x y z :
+  nth_error l t = Some y -> nth_error (set_nth t x l) t0 = Some z ->
+  (t0 = t /\ z = x) \/ (t0 <> t /\ nth_error l t0 = Some z).
+Proof.
+  intros H1 H2. rewrite nth_set_nth in H2. destruct (Nat.eqb_spec t t0).
+  - subst. rewrite H1 in H2. inversion H2. auto.
+  - right. auto.
+Qed.
+
+(* ------------------------------------------------------------------ preservation, clause by clause *)
+Lemma in_remove_nat x l i : In i (remove_nat x l) -> In i l.
+Proof.
+  induction l as [|y l IH]; simpl; auto. destruct (Nat.eqb x y); simpl; intros H; auto.
+  destruct H; auto.
+Qed.
+
+Lemma step_consts s t s' evs : step t s = Some (s', evs) -> fixed s' = fixed s /\ nl s' = nl s.
+Proof. intros H. step_split H Hth; simpl; auto. Qed.
+
+Ltac destr_if :=
+  repeat match goal with
+  | H : context [if ?b then _ else _] |- _ => destruct b eqn:?
+  | |- context [if ?b then _ else _] => destruct b eqn:?
+  end.
+
+Ltac wf_same I Hth :=
+  first [ eapply (v_wf_a _ I _ _ _ _ Hth); simpl; reflexivity
+        | eapply (v_wf_k _ I _ _ _ _ Hth); simpl; reflexivity
+        | eapply (v_wf_q _ I); match goal with E : queue _ = _ |- _ => rewrite E; simpl; auto end ].
+
+Lemma step_wf s t s' evs : Inv s -> step t s = Some (s', evs) ->
+  (forall t0 a kc i, nth_error (thr s') t0 = Some (a, kc) -> act_ix a = Some i -> i < nl s') /\
+  (forall t0 a kc i, nth_error (thr s') t0 = Some (a, kc) -> cont_ix kc = Some i -> i < nl s') /\
+  (forall i, In i (queue s') -> i < nl s').
+Proof.
+  intros I H. split; [|split].
+  - intros t0 a0 kc0 i0 H0 Hi. step_split H Hth; simpl in *;
+    (destruct (nth_thr_cases _ _ _ _ _ _ Hth H0) as [[-> E]|[N E]];
+     [inversion E; subst; clear E; try (destruct kc; simpl in *; try kill_ki I Hth); destr_if;
+      try discriminate; inversion Hi; subst; wf_same I Hth
+     | eapply (v_wf_a _ I); eauto]).
+  - intros t0 a0 kc0 i0 H0 Hi. step_split H Hth; simpl in *;
+    (destruct (nth_thr_cases _ _ _ _ _ _ Hth H0) as [[-> E]|[N E]];
+     [inversion E; subst; clear E; try (destruct kc; simpl in *; try kill_ki I Hth); destr_if;
+      try discriminate; inversion Hi; subst; wf_same I Hth
+     | eapply (v_wf_k _ I); eauto]).
+  - intros i0 Hi. step_split H Hth; simpl in *; try (eapply (v_wf_q _ I); eauto; fail).
+    + apply in_app_or in Hi. destruct Hi as [Hi|[Hi|[]]]; [eapply (v_wf_q _ I); eauto|].
+      subst. wf_same I Hth.
+    + eapply (v_wf_q _ I). eapply in_remove_nat; eauto.
+    + eapply (v_wf_q _ I). eapply in_remove_nat; eauto.
+Qed.
+
+Lemma step_own s t s' evs : Inv s -> step t s = Some (s', evs) ->
+  (forall t0 a kc i, nth_error (thr s') t0 = Some (a, kc) -> own_a a = Some i -> t0 = i) /\
+  (forall t0 a kc i, nth_error (thr s') t0 = Some (a, kc) -> own_k kc = Some i -> t0 = i) /\
+  (forall t0 a i, nth_error (thr s') t0 = Some (a, KInlineCb i) -> a = ACbOr i).
+Proof.
+  intros I H. split; [|split].
+  - intros t0 a0 kc0 i0 H0 Hi. step_split H Hth; simpl in *;
+    (destruct (nth_thr_cases _ _ _ _ _ _ Hth H0) as [[-> E]|[N E]];
+     [inversion E; subst; clear E; try (destruct kc; simpl in *; try kill_ki I Hth); destr_if;
+      try discriminate; inversion Hi; subst;
+      first [ eapply (v_own_a _ I _ _ _ _ Hth); simpl; reflexivity
+            | eapply (v_own_k _ I _ _ _ _ Hth); simpl; reflexivity ]
+     | eapply (v_own_a _ I); eauto]).
+  - intros t0 a0 kc0 i0 H0 Hi. step_split H Hth; simpl in *;
+    (destruct (nth_thr_cases _ _ _ _ _ _ Hth H0) as [[-> E]|[N E]];
+     [inversion E; subst; clear E; try (destruct kc; simpl in *; try kill_ki I Hth); destr_if;
+      try discriminate; inversion Hi; subst;
+      first [ eapply (v_own_a _ I _ _ _ _ Hth); simpl; reflexivity
+            | eapply (v_own_k _ I _ _ _ _ Hth); simpl; reflexivity ]
+     | eapply (v_own_k _ I); eauto]).
+  - intros t0 a0 i0 H0. step_split H Hth; simpl in *;
+    (destruct (nth_thr_cases _ _ _ _ _ _ Hth H0) as [[-> E]|[N E]];
+     [inversion E; subst; clear E; try (destruct kc; simpl in *; try kill_ki I Hth); destr_if;
+      try discriminate; try reflexivity; try kill_ki I Hth;
+      try (match goal with E : (_, _) = (_, _) |- _ => inversion E; subst end; try reflexivity; try kill_ki I Hth)
+     | eapply (v_ki _ I); eauto]).
+    all: pose proof (v_bs _ I _ _ _ Hth eq_refl) as B; unfold getop in *; rewrite B in *;
+         rewrite ?andb_false_r in *; simpl in *; discriminate.
+Qed.
